@@ -174,6 +174,10 @@ def main(pid, tier, seed):
         recs = [(rng.randint(1, 6), rng.choice(base), None) for _ in range(rng.randint(4, 9))]
         recs += [(2, 'skip\x0cme', None), (1, 'tab\there', None)]
         recs += [(2, 'été' if encoding != 'cp1251' else 'пароль', None), (1, 'Zoë9' if encoding != 'cp1251' else 'Любовь1', None)]   # non-ASCII in every list
+        if encoding == 'utf-8':
+            # a password that BEGINS with U+FEFF (the bytes of a byte-order mark) is a password like any other, in every spelling;
+            # it is never the first line of the file
+            recs += [(3, '\ufeffsummer12', None), (1, 'a\ufeffb', None)]
         d = os.path.join(work, 't%d' % k)
         variants = write_variants(d, recs, encoding, rng)
         digs = {}
